@@ -262,11 +262,17 @@ CLAIMS = {
          "per-stimulus markers, judged by the extracted predicate and compared with the model. The racing clause on real threads: "
          "finalize_threads with a terminating, an unsubscribing and a second terminating thread under every schedule with <= 2 context "
          "switches (threads parked before every mutex and inside the callbacks): the callback exactly once, not before the terminal it "
-         "follows was delivered. The atomicity of the take (Mutex in MutArc) is modelled in the theorem, exercised by those schedules.",
-         "DESIGN.md section 5 C15"),
+         "follows was delivered. The atomicity of the take (Mutex in MutArc) is modelled in the theorem, exercised by those schedules. Tie by "
+         "TRANSLATION as well (Props/C15src.v): the bodies of FinalizerObserver and FinalizerSubscription parsed from /repo/src on every run "
+         "(T5) and evaluated in Coq are the machine's steps, with the callback and the upstream subscription as observed calls: the terminal "
+         "is handed on first and then the callback runs, the upstream subscription is unsubscribed first and then the callback runs, whoever "
+         "takes the callback empties the cell (C15_source_observer, C15_source_unsubscribe).", "DESIGN.md section 5 C15 and 11.11"),
 }
 
 TECH_OF = {
+ "C15": "Coq proof over the hand-written finalize machine, tied to the source by translation (the observer's and the subscription's method "
+        "bodies parsed from /repo/src on every run and evaluated in Coq are the machine's steps, order of callback and hand-over included) "
+        "and by differential correspondence (extracted model/spec vs the crate, real threads under enumerated schedules)",
  "C04": "Coq proof over a model tied to the source twice: by translation (the two-input observers' method bodies parsed from /repo/src on every "
         "run and evaluated in Coq equal the model's machines, for all states, inputs and notifications) and by differential correspondence "
         "(extracted model/spec vs the crate, real threads under enumerated schedules for the thread-safe forms)",
